@@ -192,6 +192,39 @@ impl MutableArchive {
         (block_count, hash_count)
     }
 
+    /// Verification hook (only with `--cfg wowrs_verif`): projection of the in-memory state for
+    /// conformance checking: per hash slot `(state, block_index)` with state 0 = never used,
+    /// 1 = deleted, 2 = occupied; block count; append cursor; dirty flag.
+    #[cfg(wowrs_verif)]
+    pub fn verif_state(&self) -> (Vec<(u8, u32)>, usize, Option<u64>, bool) {
+        let slots = self
+            .hash_table
+            .as_ref()
+            .or_else(|| self.archive.hash_table())
+            .map(|t| {
+                t.entries()
+                    .iter()
+                    .map(|e| {
+                        if e.is_empty() {
+                            (0u8, 0u32)
+                        } else if e.is_deleted() {
+                            (1u8, 0u32)
+                        } else {
+                            (2u8, e.block_index)
+                        }
+                    })
+                    .collect()
+            })
+            .unwrap_or_default();
+        let blocks = self
+            .block_table
+            .as_ref()
+            .or_else(|| self.archive.block_table())
+            .map(|t| t.entries().len())
+            .unwrap_or(0);
+        (slots, blocks, self.next_file_offset, self.dirty)
+    }
+
     /// Read a file from the archive
     ///
     /// This method checks the modified state first, then falls back to the original archive.
